@@ -2,9 +2,9 @@ CONSTANTS
   BufCap = 25
   HeadLimit = 20
   TotalLimit = 40
-  MaxRecs = 8
+  MaxRecs = 6
   MaxFiles = 5
-  MaxCrash = 1
+  MaxCrash = 0
   MaxStop = 0
   MaxCorrupt = 0
   MaxH = 1
